@@ -13,7 +13,7 @@ variable {P M σ ρ : Type} [DecidableEq M]
 /-- **`next_legal`**: the loop hands to its body only pairs `(m, child)` with `MovePreallocated(m) = child, nil`:
 replacing the body by one that agrees with it on such pairs (and does anything else elsewhere) does not change
 the loop — whatever the table entry, the PV hint, the response map and the move order contain. -/
-theorem next_legal (g : Game P M) (cfg : Search.Cfg) (o : Oracle M) (p : P) (mg : MG M)
+theorem next_legal (g : Game P M) (cfg : SOpts) (o : Oracle M) (p : P) (mg : MG M)
     (body body' : M → P → σ → Eng M → Except Err (Ctl σ ρ × Eng M))
     (h : ∀ m c, g.apply p m = .ok c → body' m c = body m c) (a : σ) (s : Eng M) :
     iterate g cfg o p mg body' a s = iterate g cfg o p mg body a s := by
@@ -66,7 +66,7 @@ theorem record_ok (g : Game P M) (p : P) :
 
 /-- **every yielded pair is legal** — no hypothesis on the game, the hints, the engine state or the order:
 if the recording loop returns the list `l`, each `(m, child) ∈ l` satisfies `apply p m = ok child`. -/
-theorem yields_legal (g : Game P M) (cfg : Search.Cfg) (o : Oracle M) (p : P) (mg : MG M) (s : Eng M) :
+theorem yields_legal (g : Game P M) (cfg : SOpts) (o : Oracle M) (p : P) (mg : MG M) (s : Eng M) :
     Sat (iterate g cfg o p mg record [] s) (fun r =>
       match r.1 with
       | .next l => ∀ x ∈ l, g.apply p x.1 = .ok x.2
@@ -81,7 +81,7 @@ theorem yields_legal (g : Game P M) (cfg : Search.Cfg) (o : Oracle M) (p : P) (m
 
 /-- **and nothing legal is lost**: under `GenOK` (`Move.Equal` moves act alike, the zero move `Equal`s no generated
 move) and an order oracle that keeps the generated set, every legal generated move's child is yielded. -/
-theorem yields_complete (g : Game P M) (cfg : Search.Cfg) (o : Oracle M) (p : P) (mg : MG M) (s : Eng M)
+theorem yields_complete (g : Game P M) (cfg : SOpts) (o : Oracle M) (p : P) (mg : MG M) (s : Eng M)
     (hg : GenOK g p) (hord : OrderOK o) :
     Sat (iterate g cfg o p mg record [] s) (fun r =>
       match r.1 with
@@ -99,7 +99,7 @@ theorem yields_complete (g : Game P M) (cfg : Search.Cfg) (o : Oracle M) (p : P)
 configurations: see the module note in MANIFEST): the first move of the PV `Analyze` returns for a live
 position is accepted by `MovePreallocated`. -/
 theorem analyze_pv_head_legal {g : Game P M} (hg : GameOK g) (hb : EvalBounded g) {cfg : Search.Cfg}
-    (hpr : Precise cfg) {o : Oracle M} (hnc : NoCancel o) (hord : OrderOK o)
+    (hpr : Precise cfg.opts) {o : Oracle M} (hnc : NoCancel o) (hord : OrderOK o)
     (p : P) (hov : g.over p = false) (hdepth : 1 ≤ cfg.depth)
     (hlive : ∀ d : Nat, 1 ≤ d → (d : Int) ≤ cfg.depth → Live g d p)
     (s : Eng M) (hs : s.hasTable = false) :
@@ -110,7 +110,7 @@ theorem analyze_pv_head_legal {g : Game P M} (hg : GameOK g) (hb : EvalBounded g
 
 /-- non-vacuity: on the heap game the recording loop yields the two legal moves of a heap of 3, in
 generation order, although the hints are garbage (an illegal table move 7 and an illegal PV hint 0) -/
-example : (match iterate Toy.game Toy.cfg Oracle.quiet 3
+example : (match iterate Toy.game Toy.cfg.opts Oracle.quiet 3
       ⟨0, 3, some ⟨0#64, 0, 7, 0, 0⟩, [0]⟩ (record (M := Nat) (P := Nat)) [] (Eng.new Toy.game Toy.cfg) with
     | .ok (.next l, _) => some l
     | _ => none) = some [(1, 2), (2, 1)] := by decide
